@@ -64,6 +64,12 @@ def _cell(rng, d, kind, dyadic):
             for j in range(i):
                 H[i][j] = dec(rng, -1.5, 1.5, 2)
         common.sparse_tilt(rng, H)
+    if dyadic and rng.random() < 0.4:
+        # a tilted cell on which float arithmetic is still exact (power-of-two edges, dyadic tilt factors): separations of exactly
+        # half a cell vector are rint ties whose two directions must stay exact negatives (half-even rounding is odd)
+        for i in range(d):
+            for j in range(i):
+                H[i][j] = rng.choice(["0", "1", "2", "-1", "-2", "0.5"])
     return H
 
 
